@@ -567,6 +567,13 @@ func (fc *FnCtx) globalComp(g *ssa.Global) string {
 			c := fc.declare("g0_"+mangle(k), fc.P.SortOf(T))
 			fc.fact("", "(not (= %s 0))", c)
 		}
+		if strings.HasPrefix(k, "K:") {
+			// a package-level variable that is only ever assigned one constant in its initialiser holds that constant
+			if c := fc.eng.globalInit[g]; c != nil && c.Value != nil {
+				cst := fc.declare("g0_"+mangle(k), fc.P.SortOf(T))
+				fc.fact("", "(= %s %s)", cst, fc.constTerm(c))
+			}
+		}
 	}
 	return k
 }
